@@ -598,6 +598,11 @@ fn main() {
             let lines: Vec<String> = std::fs::read_to_string(&a.rest[0]).unwrap().lines().map(|l| l.trim().to_string()).filter(|l| !l.is_empty() && !l.starts_with('#')).collect();
             run_lines(&a, &lines, &mut out);
         }
+        "gen" => {
+            // development aid: print the generated (not yet annotated) scenarios of a tier
+            let mut rng = Rng::new(a.seed);
+            for l in gen_cases::generate(&mut rng, a.rest.first().is_some_and(|x| x == "thorough")) { println!("{l}"); }
+        }
         t => {
             let mut rng = Rng::new(a.seed);
             let lines = gen_cases::generate(&mut rng, t == "thorough");
